@@ -12,8 +12,9 @@ Under the reflection `x ↦ L + 1 − x` (Model/C11SymAssignMirror.lean: `mirror
     `check_read_ends` is self-dual, the assignment type it computes is invariant;
   * `verify_polya ↔ verify_polyt` with all helpers (`shift_polya ↔ shift_polyt`, the `while` loops of
     `detect_reference_exons_beyond_polya ↔ before_polyt`, `check_if_close`, `check_internal_polya ↔ polyt`) and
-    `verify_read_ends` (strand + ↔ −), for ALL exon lists and event lists; hypotheses only about the sentinel −1
-    (`PolyaMirrorOK`; `verify_polya_sentinel_witness`: the code takes `abs(x − pos)` of an ABSENT position);
+    `verify_read_ends` (strand + ↔ −), for ALL exon lists and event lists; hypotheses only about collisions with the
+    sentinel −1 (`PolyaMirrorOK`; `detectBeyondPolyaBuggy_mirror_witness`: before fix a2ae069 the code took
+    `abs(x − pos)` of an ABSENT position);
   * candidate selection: `find_containing_isoforms`, `is_fsm`, `detect_ism_subtype` (ism_left ↔ ism_right),
     `categorize_correct_splice_match`, the `extra_left / extra_right` flags of `select_similar_isoforms`, the two
     nucleotide scores (sorted disjoint lists).
@@ -283,29 +284,53 @@ example : isPolyaSiteTy .correct_polya_site_right = true ∧ PosOK 2000 1001 ∧
 
 /-- `detect_reference_exons_beyond_polya ↔ detect_reference_exons_before_polyt`: events mirrored (the added
     `terminal_exon_misalignment_right` with intron index n−2−i become `…_left` with index i), both returned positions
-    mirrored -/
+    mirrored.  Since fix a2ae069 (an absent position is infinitely far: `minInf (distOrInf ..)`) the only hypotheses are the sentinel
+    collisions. -/
 theorem mirror_dual_detectBeyondPolya (L : Int) (p : Params) (iso : List Iv) (ext int : Int) (evs : List Event)
-    (hpos : ext ≠ -1 ∨ int ≠ -1) (he : PosOK L ext) (hi : PosOK L int)
-    (hend : ∀ e, iso.getLast? = some e → e.2 ≠ -1) (hin : SentinelInertBeyond L iso ext int) :
+    (he : PosOK L ext) (hi : PosOK L int) (hend : ∀ e, iso.getLast? = some e → e.2 ≠ -1) :
     detectBeforePolyt p (mirrorL L iso) (mirrorPos L ext) (mirrorPos L int) (evs.map (mirrorEvent L iso.length))
       = (detectBeyondPolya p iso ext int evs).map
           (fun r => (r.1.map (mirrorEvent L iso.length), mirrorPos L r.2.1, mirrorPos L r.2.2)) :=
-  am_detectBeyond_mirror L p iso ext int evs hpos he hi hend hin
+  am_detectBeyond_mirror L p iso ext int evs he hi hend
 
 theorem mirror_dual_detectBeforePolyt (L : Int) (p : Params) (iso : List Iv) (ext int : Int) (evs : List Event)
-    (hpos : ext ≠ -1 ∨ int ≠ -1) (he : PosOK L ext) (hi : PosOK L int)
-    (hstart : ∀ e, iso.head? = some e → e.1 ≠ -1) (hin : SentinelInertBefore L iso ext int) :
+    (he : PosOK L ext) (hi : PosOK L int) (hstart : ∀ e, iso.head? = some e → e.1 ≠ -1) :
     detectBeyondPolya p (mirrorL L iso) (mirrorPos L ext) (mirrorPos L int) (evs.map (mirrorEvent L iso.length))
       = (detectBeforePolyt p iso ext int evs).map
           (fun r => (r.1.map (mirrorEvent L iso.length), mirrorPos L r.2.1, mirrorPos L r.2.2)) :=
-  am_detectBefore_mirror L p iso ext int evs hpos he hi hstart hin
+  am_detectBefore_mirror L p iso ext int evs he hi hstart
+
+/-- the distance the two functions test is invariant (absent = infinitely far) -/
+theorem mirror_dual_tailDist (L a ext int : Int) (he : PosOK L ext) (hi : PosOK L int) :
+    minInf (distOrInf (L + 1 - a) (mirrorPos L ext)) (distOrInf (L + 1 - a) (mirrorPos L int)) = minInf (distOrInf a ext) (distOrInf a int) :=
+  am_tailDist_mirror L a ext int he hi
 
 -- non-vacuity: a short last exon beyond the polyA site is recognised as missed in both orientations
-example : SentinelInertBeyond 5000 [(1000, 1200), (1300, 1320)] 1230 (-1) ∧
+example : PosOK 5000 1230 ∧ PosOK 5000 (-1) ∧
     detectBeyondPolya nanoporeParams [(1000, 1200), (1300, 1320)] 1230 (-1) []
       = some ([{ ty := .terminal_exon_misalignment_right, isoRegion := (0, 0) }], 1320, 1320) ∧
     detectBeforePolyt nanoporeParams (mirrorL 5000 [(1000, 1200), (1300, 1320)]) (mirrorPos 5000 1230) (-1) []
       = some ([{ ty := .terminal_exon_misalignment_left, isoRegion := (0, 0) }], 3681, 3681) := by decide
+
+/-- regression witness of fix a2ae069: the code before the fix took `abs(exon_end − pos)` of the ABSENT internal
+    position −1 as well; for a gene at the chromosome start the sentinel was the nearer one
+    (|30 − (−1)| = 31 ≤ 40 < |30 − 135|) and the last exon counted as "missed", while in the mirror image (and after any
+    large translation) it did not: the two old functions are NOT each other's mirror image on this input
+    (all coordinates positive, no real position is −1) … -/
+theorem detectBeyondPolyaBuggy_mirror_witness :
+    detectBeforePolytBuggy nanoporeParams (mirrorL 1000 sentIso) (mirrorPos 1000 sentInfo.extA) (mirrorPos 1000 sentInfo.intA) []
+      ≠ (detectBeyondPolyaBuggy nanoporeParams sentIso sentInfo.extA sentInfo.intA []).map
+          (fun r => (r.1.map (mirrorEvent 1000 sentIso.length), mirrorPos 1000 r.2.1, mirrorPos 1000 r.2.2)) := by
+  decide
+
+-- … while the fixed functions (and `verify_polya ↔ verify_polyt` on top of them) are dual on the same input
+example : PolyaMirrorOK 1000 sentIso sentRead sentInfo.extA sentInfo.intA 0 ∧
+    detectBeyondPolya nanoporeParams sentIso sentInfo.extA sentInfo.intA [] = some ([], 135, -1) ∧
+    detectBeforePolyt nanoporeParams (mirrorL 1000 sentIso) (mirrorPos 1000 sentInfo.extA) (mirrorPos 1000 sentInfo.intA) []
+      = some ([], 866, -1) ∧
+    verifyPolya nanoporeParams sentIso sentRead sentInfo [] = some [{ ty := .alternative_polya_site_right, info := 135 }] ∧
+    verifyPolyt nanoporeParams (mirrorL 1000 sentIso) (mirrorL 1000 sentRead) (mirrorPolyA 1000 sentInfo) []
+      = some [{ ty := .alternative_polya_site_left, info := 866 }] := by decide
 
 /-- `verify_polya` of an isoform / read / polyA info / event list = `verify_polyt` of their mirror images
     (error ↦ error), under the sentinel hypotheses `PolyaMirrorOK` -/
@@ -325,17 +350,6 @@ example : PolyaMirrorOK 1000 paIso paRead paInfo.extA paInfo.intA 0 ∧
     verifyPolya nanoporeParams paIso paRead paInfo [] = some [{ ty := .correct_polya_site_right, info := 381 }] ∧
     verifyPolyt nanoporeParams (mirrorL 1000 paIso) (mirrorL 1000 paRead) (mirrorPolyA 1000 paInfo) []
       = some [{ ty := .correct_polya_site_left, info := 620 }] := by decide
-
-/-- the former witness `verify_polya_sentinel_witness`: before the fix of the sentinel distance
-    `detect_reference_exons_beyond_polya` took `abs(exon_end − pos)` of the ABSENT internal position −1 as well, and for a
-    gene at the chromosome start the sentinel was the nearer one (|30 − (−1)| = 31 ≤ 40 < |30 − 135|).  Since the fix
-    (absent = infinitely far) the model AND the code are mirror dual on this input although `PolyaMirrorOK`
-    (its `SentinelInert` part) fails — the hypothesis is no longer needed (restated by the C01 builder; C11 owner: see
-    report).  All coordinates are positive, no real position is −1. -/
-theorem verify_polya_sentinel_fixed :
-    verifyPolyt nanoporeParams (mirrorL 1000 sentIso) (mirrorL 1000 sentRead) (mirrorPolyA 1000 sentInfo) []
-      = (verifyPolya nanoporeParams sentIso sentRead sentInfo []).map (List.map (mirrorEvent 1000 sentIso.length)) ∧
-    ¬ PolyaMirrorOK 1000 sentIso sentRead sentInfo.extA sentInfo.intA 0 := by decide
 
 /-- `check_internal_polya ↔ check_internal_polyt` -/
 theorem mirror_dual_checkInternal (L : Int) (n : Nat) (pos : Int) (evs : List Event) (hp : PosOK L pos) :
